@@ -261,6 +261,7 @@ pub fn scenarios(thorough: bool) -> Vec<Scenario> {
     }
     v.push(uneven_heads_scenario("pair-heads-9-and-10", if thorough { 4 } else { 3 }, &[]));
     v.extend(cross_scenarios(thorough));
+    v.extend(combo_scenarios(thorough));
     v
 }
 
